@@ -205,6 +205,12 @@ def _run_one(check: Check, case: dict):
 
 def _worker(check: Check, cases: list, out_path: str, deadline: float):
     faulthandler.enable()
+    try:  # kill -USR1 <shard pid> prints where a shard is (diagnosis of overruns)
+        import signal
+
+        faulthandler.register(signal.SIGUSR1, all_threads=True)
+    except (AttributeError, ValueError):
+        pass
     os.environ.setdefault("OMP_NUM_THREADS", "1")
     try:
         check.setup_worker()
